@@ -1,5 +1,6 @@
 SPECIFICATION SpecEnum
 CONSTANTS
+  Layouts <- LayoutsPlain
   N = 4
   Sizes = {2, 32768, 65530}
   LinkOpts <- LO_enum4t
